@@ -2,6 +2,97 @@ import Nv.Model.C04
 import Nv.Gen.C04
 /-! C04 — obligations on the definitions regenerated from /repo's current source. -/
 namespace Nv.C04
+
 theorem tie_facts : Nv.Gen.C04.factsSized = Facts.expected ∧ Nv.Gen.C04.factsTiny = Facts.expected := by decide
+
 theorem tie_cfg_proved : Proved .sized Nv.Gen.C04.cfgSized ∧ Proved .tiny Nv.Gen.C04.cfgTiny := by decide
+
+/-- the two shapes of the per-shard capacity kernel the theorems below cover: today's `capacity/numbs + 1`
+    and the saturating `p := capacity/numbs; if p < MaxInt64 { p++ }` -/
+def KernelShape (k : BitVec 64 → BitVec 64 → BitVec 64) : Prop :=
+  (∀ a b, k a b = BitVec.sdiv a b + 1#64) ∨
+  (∀ a b, k a b = if (BitVec.sdiv a b).slt 9223372036854775807#64 then BitVec.sdiv a b + 1#64 else BitVec.sdiv a b)
+
+def Saturating (k : BitVec 64 → BitVec 64 → BitVec 64) : Prop :=
+  ∀ a b, k a b = if (BitVec.sdiv a b).slt 9223372036854775807#64 then BitVec.sdiv a b + 1#64 else BitVec.sdiv a b
+
+theorem sdiv_facts (cap n : BitVec 64) (hc : 0 ≤ cap.toInt) (hn : 0 < n.toInt) :
+    (BitVec.sdiv cap n).toInt = cap.toInt.tdiv n.toInt ∧ 0 ≤ cap.toInt.tdiv n.toInt ∧
+      cap.toInt.tdiv n.toInt ≤ cap.toInt ∧ cap.toInt.tdiv n.toInt * n.toInt ≤ cap.toInt := by
+  have hne : cap ≠ BitVec.intMin 64 := by
+    intro h; rw [h] at hc; simp [BitVec.toInt_intMin] at hc
+  refine ⟨BitVec.toInt_sdiv_of_ne_or_ne _ _ (Or.inl hne), Int.tdiv_nonneg hc (by omega), ?_, ?_⟩
+  · rw [Int.tdiv_eq_ediv_of_nonneg hc]; exact Int.ediv_le_self _ hc
+  · rw [Int.tdiv_eq_ediv_of_nonneg hc]; exact Int.ediv_mul_le _ (by omega)
+
+theorem add_one_toInt (q : BitVec 64) (h0 : 0 ≤ q.toInt) (h1 : q.toInt + 1 < 2 ^ 63) : (q + 1#64).toInt = q.toInt + 1 := by
+  rw [BitVec.toInt_add]
+  have : (1#64 : BitVec 64).toInt = 1 := by decide
+  rw [this]
+  apply Int.bmod_eq_of_le <;> omega
+
+/-- 64-bit per-shard capacity is the model's `shardCap` whenever `capacity/shards + 1` does not overflow
+    (it overflows only for capacity = MaxInt64 with a single shard) -/
+theorem shardCap_kernel (k : BitVec 64 → BitVec 64 → BitVec 64) (hk : KernelShape k)
+    (cap n : BitVec 64) (hc : 0 ≤ cap.toInt) (hn : 0 < n.toInt)
+    (hov : cap.toInt < 2 ^ 63 - 1 ∨ 2 ≤ n.toInt) :
+    (k cap n).toInt = shardCap cap.toInt n.toNat ∧ 0 < (k cap n).toInt := by
+  have hcl := BitVec.toInt_lt (x := cap)
+  have hnat : (n.toNat : Int) = n.toInt := by
+    have := BitVec.toInt_eq_toNat_of_lt (x := n) (by
+      have := BitVec.toInt_eq_toNat_cond n
+      split at this <;> omega)
+    omega
+  obtain ⟨hs, hq0, hqle, hmul⟩ := sdiv_facts cap n hc hn
+  have hq : cap.toInt.tdiv n.toInt + 1 < 2 ^ 63 := by
+    rcases hov with h | h
+    · omega
+    · have h2 : cap.toInt.tdiv n.toInt * 2 ≤ cap.toInt.tdiv n.toInt * n.toInt :=
+        Int.mul_le_mul_of_nonneg_left h hq0
+      omega
+  have hval : (k cap n).toInt = cap.toInt.tdiv n.toInt + 1 := by
+    rcases hk with hk | hk
+    · rw [hk, add_one_toInt _ (by omega) (by omega), hs]
+    · have hlt : (BitVec.sdiv cap n).slt 9223372036854775807#64 = true := by
+        rw [BitVec.slt_iff_toInt_lt, hs]
+        have : (9223372036854775807#64 : BitVec 64).toInt = 2 ^ 63 - 1 := by decide
+        rw [this]; omega
+      rw [hk, hlt, if_pos rfl, add_one_toInt _ (by omega) (by omega), hs]
+  refine ⟨?_, by omega⟩
+  rw [hval, shardCap, hnat]
+
+/-- with the saturating kernel the per-shard capacity is positive for EVERY capacity ≥ 0 and shard count ≥ 1 -/
+theorem saturating_positive (k : BitVec 64 → BitVec 64 → BitVec 64) (hk : Saturating k)
+    (cap n : BitVec 64) (hc : 0 ≤ cap.toInt) (hn : 0 < n.toInt) : 0 < (k cap n).toInt := by
+  obtain ⟨hs, hq0, hqle, -⟩ := sdiv_facts cap n hc hn
+  have hmax : (9223372036854775807#64 : BitVec 64).toInt = 2 ^ 63 - 1 := by decide
+  rw [hk]
+  split
+  · rename_i h
+    rw [BitVec.slt_iff_toInt_lt, hs, hmax] at h
+    rw [add_one_toInt _ (by omega) (by omega), hs]; omega
+  · rename_i h
+    have : ¬ ((BitVec.sdiv cap n).toInt < (9223372036854775807#64 : BitVec 64).toInt) := by
+      rw [← BitVec.slt_iff_toInt_lt]; exact h
+    rw [hs, hmax] at this
+    rw [hs]; omega
+
+theorem tie_pSize (cap n : BitVec 64) (hc : 0 ≤ cap.toInt) (hn : 0 < n.toInt)
+    (hov : cap.toInt < 2 ^ 63 - 1 ∨ 2 ≤ n.toInt) :
+    (Nv.Gen.C04.pSize cap n).toInt = shardCap cap.toInt n.toNat ∧ 0 < (Nv.Gen.C04.pSize cap n).toInt :=
+  shardCap_kernel Nv.Gen.C04.pSize (by first | exact Or.inl (fun _ _ => rfl) | exact Or.inr (fun _ _ => rfl)) cap n hc hn hov
+
+theorem tie_pSize_tiny (cap n : BitVec 64) (hc : 0 ≤ cap.toInt) (hn : 0 < n.toInt)
+    (hov : cap.toInt < 2 ^ 63 - 1 ∨ 2 ≤ n.toInt) :
+    (Nv.Gen.C04.pSizeTiny cap n).toInt = shardCap cap.toInt n.toNat ∧ 0 < (Nv.Gen.C04.pSizeTiny cap n).toInt :=
+  shardCap_kernel Nv.Gen.C04.pSizeTiny (by first | exact Or.inl (fun _ _ => rfl) | exact Or.inr (fun _ _ => rfl)) cap n hc hn hov
+
+/-- FULL quantifier of the property (capacity ≥ 0, any shard count ≥ 1): every shard gets a positive capacity.
+    False for `capacity/numbs + 1` (capacity = MaxInt64, one shard: `Nv.C04.witness_shard_capacity_overflow`);
+    holds for the saturating form. -/
+theorem tie_pSize_positive (cap n : BitVec 64) (hc : 0 ≤ cap.toInt) (hn : 0 < n.toInt) :
+    0 < (Nv.Gen.C04.pSize cap n).toInt ∧ 0 < (Nv.Gen.C04.pSizeTiny cap n).toInt :=
+  ⟨saturating_positive Nv.Gen.C04.pSize (fun _ _ => rfl) cap n hc hn,
+   saturating_positive Nv.Gen.C04.pSizeTiny (fun _ _ => rfl) cap n hc hn⟩
+
 end Nv.C04
